@@ -56,6 +56,8 @@ func (db *DB) Merge() error {
 	mergePath := db.mergePath()
 	// 如果存在上次 merge 的残留目录, 将其删除
 	if _, err := os.Stat(mergePath); err == nil {
+		// 先删除完成标识文件, 避免删除中途崩溃后残缺的 merge 目录被当作已完成的 merge 处理
+		_ = os.Remove(datafile.GetFileName(mergePath, 0, datafile.MergeFinishedFileSuffix))
 		if err := os.RemoveAll(mergePath); err != nil {
 			return err
 		}
@@ -204,46 +206,63 @@ func (db *DB) loadMergeFiles() (uint32, error) {
 		return 0, nil
 	}
 
+	// 仅在全部文件移动成功后删除 merge 目录, 中途失败或崩溃时保留以便下次打开时重试
+	adopted := false
 	defer func() {
-		// 加载完成后删除 merge 目录
-		_ = os.RemoveAll(mergePath)
+		if adopted {
+			// 先删除完成标识文件, 删除中途崩溃后不会再次进入该流程
+			_ = os.Remove(datafile.GetFileName(mergePath, 0, datafile.MergeFinishedFileSuffix))
+			_ = os.RemoveAll(mergePath)
+		}
 	}()
 
-	// 处理经过重写的数据文件, 处理中途失败需返回错误
-	for fileID := uint32(0); fileID < mergeID; fileID++ {
-		// 删除原数据文件
-		destName := datafile.GetFileName(db.options.DirPath, fileID, datafile.DataFileSuffix)
-		var exist bool
-		if _, err := os.Stat(destName); err == nil {
-			if err = os.Remove(destName); err != nil {
-				return 0, err
+	// 整个过程必须可重入: 进程可能在任意两步之间崩溃, 下次打开时标识文件仍在, 会再次执行
+	// 重写文件 id 从 0 开始连续, 且按 id 升序移动. 只要 0 号重写文件仍在 merge 目录中,
+	// 说明尚未开始移动, 此时 merge 目录中的文件列表完整, 可以确定哪些原数据文件没有对应的重写文件并将其删除.
+	// 重试时若 0 号重写文件已被移动, 则该删除阶段必然已经完成, 不能再根据残缺的列表删除文件.
+	firstSrcFile := datafile.GetFileName(mergePath, 0, datafile.DataFileSuffix)
+	if _, err := os.Stat(firstSrcFile); err == nil {
+		for fileID := uint32(0); fileID < mergeID; fileID++ {
+			srcFile := datafile.GetFileName(mergePath, fileID, datafile.DataFileSuffix)
+			if _, err := os.Stat(srcFile); err == nil {
+				continue
 			}
-			exist = true
+			destName := datafile.GetFileName(db.options.DirPath, fileID, datafile.DataFileSuffix)
+			if _, err := os.Stat(destName); err == nil {
+				if err = os.Remove(destName); err != nil {
+					return 0, err
+				}
+			}
 		}
-		// 将重写的数据文件移动到数据目录中
+	}
+
+	// 将重写的数据文件移动到数据目录中, rename 会原子地替换原数据文件
+	for fileID := uint32(0); fileID < mergeID; fileID++ {
 		srcFile := datafile.GetFileName(mergePath, fileID, datafile.DataFileSuffix)
 		if _, err := os.Stat(srcFile); err != nil {
-			// 重写后的文件数量可能少于原数据文件数量, 允许重写文件不存在
-			_ = exist
+			// 重写后的文件数量可能少于原数据文件数量, 重试时文件也可能已被移动
 			if os.IsNotExist(err) {
 				continue
 			}
 			return 0, err
 		}
+		destName := datafile.GetFileName(db.options.DirPath, fileID, datafile.DataFileSuffix)
 		if err := os.Rename(srcFile, destName); err != nil {
 			return 0, err
 		}
 	}
 
-	// 移动对应的 hint 文件, 移动失败应当返回错误
+	// 移动对应的 hint 文件, 重试时可能已被移动
 	srcHintFile := datafile.GetFileName(mergePath, 0, datafile.HintFileSuffix)
 	destHintFile := datafile.GetFileName(db.options.DirPath, 0, datafile.HintFileSuffix)
-	if _, err := os.Stat(srcHintFile); err != nil {
+	if _, err := os.Stat(srcHintFile); err == nil {
+		if err := os.Rename(srcHintFile, destHintFile); err != nil {
+			return 0, err
+		}
+	} else if !os.IsNotExist(err) {
 		return 0, err
 	}
-	if err := os.Rename(srcHintFile, destHintFile); err != nil {
-		return 0, err
-	}
+	adopted = true
 
 	return mergeID, nil
 }
